@@ -416,6 +416,17 @@ theorem huberValK_eq (gam t : K) (hg : 0 < gam) (ht : 0 ≤ t) : huberValK gam t
   · rw [if_pos h.le, if_neg (not_le.mpr h)]; norm_num
 
 
+/-! proximal point on lists (calculus nodes of the executed `Fn`) -/
+/-- `p` is the proximal point of `F` at `x` with step `s` in the norm with flat weights `w`,
+on lists: right length and minimiser of `F(z) + Σ w_i (z_i − x_i)²/(2s)` with the quadratic gap,
+against every `z` of the same length. -/
+def IsListProx (w : List K) (F : List K → K) (s : K) (x p : List K) : Prop :=
+  p.length = x.length ∧ ∀ z : List K, z.length = x.length →
+    F p + ∑ i ∈ range x.length, w.getD i 0 *
+        (((p.getD i 0 - x.getD i 0) ^ 2 + (z.getD i 0 - p.getD i 0) ^ 2) / (2 * s))
+      ≤ F z + ∑ i ∈ range x.length, w.getD i 0 * ((z.getD i 0 - x.getD i 0) ^ 2 / (2 * s))
+
+
 end Group
 
 /-! ## the abstract layer: functionals on a real inner product space -/
